@@ -807,7 +807,17 @@ impl BigDecimal {
         }
 
         let uint = self.int_val.magnitude();
-        let result = arithmetic::inverse::impl_inverse_uint_scale(uint, self.scale, ctx);
+
+        // the magnitude is inverted and rounded, so the directed rounding
+        // modes of a negative number act in the mirrored direction
+        let mode = match (self.sign(), ctx.rounding_mode()) {
+            (Sign::Minus, RoundingMode::Floor) => RoundingMode::Ceiling,
+            (Sign::Minus, RoundingMode::Ceiling) => RoundingMode::Floor,
+            (_, mode) => mode,
+        };
+        let result = arithmetic::inverse::impl_inverse_uint_scale(
+            uint, self.scale, &ctx.with_rounding_mode(mode)
+        );
 
         // always copy sign
         result.take_with_sign(self.sign())
